@@ -1984,7 +1984,7 @@ fn read_note(cur: &mut SourceCursor, ch: char) -> Token {
         if cur.eq_char('+') {
             cur.next();
         } // 現状 +/- を無視する (TODO)
-        cur.get_int(0)
+        cur.get_int(-1) // empty slot: track velocity
     };
     cur.skip_space();
     // timing
@@ -2001,7 +2001,7 @@ fn read_note(cur: &mut SourceCursor, ch: char) -> Token {
     } else {
         cur.next();
         cur.skip_space();
-        cur.get_int(0)
+        cur.get_int(-1) // empty slot: track octave
     };
     // Slur or Tie
     let mut slur = SValue::None;
